@@ -432,6 +432,8 @@ def check_C02(ctx):
     s = hv(ctx, "replay-core", prop="C02", **{"in": allout}, jax_every=(4 if ctx.quick else 1), concs="dense,roots0_1,random")
     ctx.traces += s.get("cases", 0)
     trace_core(ctx, "C02", 10 if ctx.quick else 300)
+    if not ctx.quick:
+        trace_core(ctx, "EXTRA", 60)        # growth: which records a sub-ontology keeps (modifier filter); EXTRA-FINDING only
     algo_drift(ctx, 20 if ctx.quick else 400)
     ctx.assumptions += ["kinds are independent instances of one machine in the spec; leaks between kinds are detected at the binding level (ids shared across kinds)",
                         "exhaustive within 3-4 term ids and <=3 facts; simulation beyond"]
